@@ -3,3 +3,6 @@ From Ctap Require Import Deps Generated.
 
 Lemma generated_deps : deps_hold repo_lock_present lock_versions harness_lock_versions cargo_deps = true.
 Proof. vm_compute. reflexivity. Qed.
+
+Lemma generated_features : features_hold cargo_features = true.
+Proof. vm_compute. reflexivity. Qed.
